@@ -403,4 +403,39 @@ N('U-kwarg-order', ['C08'], 'frame.py', 'FrameAsType.__call__',
 N('U-slot-instead-of-property', ['C08'], 'frame.py', 'FrameAsType.__call__',
   'index=self.container.index,', 'index=self.container._index,')
 
+# ---------------------------------------------------------------------------------- resolve (C07)
+B('F1-astype-to-copy', ['C07'], 'type_blocks.py', 'TypeBlocks._assign_from_boolean_blocks_by_unit',
+  'assigned = block.astype(assigned_dtype)', 'assigned = block.copy()', 'F1', '_assign_from_boolean_blocks_by_unit')
+B('F1-unconditional-copy', ['C07'], 'index.py', 'Index.fillna',
+  '        if values.dtype == assignable_dtype:\n            assigned = values.copy()\n        else:\n            assigned = values.astype(assignable_dtype)', '        assigned = values.copy()', 'F1', 'Index.fillna')
+B('F1-resolve-dropped', ['C07'], 'series.py', 'SeriesAssign.__call__',
+  'dtype = resolve_dtype(self.container.dtype, value_dtype)', 'dtype = self.container.dtype', 'F1', 'SeriesAssign.__call__')
+B('F1-guard-inverted', ['C07'], 'type_blocks.py', 'TypeBlocks._fillna_sided_axis_0',
+  'if b.dtype == assignable_dtype:', 'if b.dtype != assignable_dtype:', 'F1', '_fillna_sided_axis_0')
+B('F1-empty-no-dtype', ['C07'], 'series.py', 'Series._insert',
+  'values = np.empty(len(self) + len(container), dtype=dtype)', 'values = np.empty(len(self) + len(container))', 'F1', 'Series._insert')
+B('F2-bare-concatenate', ['C07', 'C11'], 'util.py', 'concat_resolved',
+  '    out = np.empty(shape=shape, dtype=dt_resolve)\n    np.concatenate(arrays, out=out, axis=axis)', '    out = np.concatenate(arrays, axis=axis)', 'F2', 'concat_resolved')
+B('F2-hstack', ['C07'], 'type_blocks.py', 'TypeBlocks.transpose',
+  'array = np.concatenate(blocks)', 'array = np.vstack(blocks)', 'F2', 'TypeBlocks.transpose')
+B('F2-transpose-no-cast', ['C07'], 'type_blocks.py', 'TypeBlocks.transpose',
+  '            if b.dtype != self._row_dtype:\n                b = b.astype(self._row_dtype)\n', '', 'F2', 'TypeBlocks.transpose')
+B('F3-bool-guard-dropped', ['C07'], 'util.py', 'resolve_dtype',
+  '            or dt1_is_bool or dt2_is_bool\n', '', 'F3', 'resolve_dtype')
+B('F3-str-family-one-sided', ['C07'], 'util.py', 'resolve_dtype',
+  'if dt1_is_str and dt2_is_str:', 'if dt1_is_str or dt2_is_str:', 'F3', 'resolve_dtype')
+B('F3-row-dtype-not-widened', ['C07', 'C03'], 'type_blocks.py', 'TypeBlocks.append',
+  'self._row_dtype = DTYPE_OBJECT', 'pass', 'F3', 'TypeBlocks.append')
+B('F3-str-nonstr-not-object', ['C07'], 'util.py', 'prepare_iter_for_array',
+  'if has_tuple or has_enum or (has_str and has_non_str):', 'if has_tuple or has_enum:', 'F3', 'prepare_iter_for_array')
+N('F-rename-resolved-local', ['C07'], 'index.py', 'Index.fillna',
+  '        assignable_dtype = resolve_dtype(value_dtype, values.dtype)\n\n        if values.dtype == assignable_dtype:\n            assigned = values.copy()\n        else:\n            assigned = values.astype(assignable_dtype)',
+  '        dt = resolve_dtype(value_dtype, values.dtype)\n\n        if values.dtype == dt:\n            assigned = values.copy()\n        else:\n            assigned = values.astype(dt)')
+N('F-noteq-form', ['C07'], 'series.py', 'Series.fillna',
+  '        if values.dtype == assignable_dtype:\n            assigned = values.copy()\n        else:\n            assigned = values.astype(assignable_dtype)',
+  '        if values.dtype != assignable_dtype:\n            assigned = values.astype(assignable_dtype)\n        else:\n            assigned = values.copy()')
+# the agent-seeded C12 fast path
+B('S-order-ignores-key', ['C12'], 'container_util.py', 'sort_index_for_order',
+  "    else:\n        # depth is 1\n        v = cfs if cfs_is_array else cfs.values", "    elif not cfs_is_array and index.depth == 1 and index._map is None:\n        order = index.positions\n    else:\n        # depth is 1\n        v = cfs if cfs_is_array else cfs.values", 'I.order-from', 'sort_index_for_order')
+
 VARIANTS = V
